@@ -549,6 +549,58 @@ def check_pu_intarith(project: Project, rep, rule="PU-INTARITH"):
     return len([x for x in rep.refutations if x["rule"] == rule]), n_fn
 
 
+def _mutable_global(project: Project, dotted: str) -> bool:
+    """the module-level name is bound (once) to a mutable container: a dict / list / set display or constructor, np.array(...)"""
+    modname, _, gname = dotted.rpartition(".")
+    m = project.modules.get(modname)
+    e = m.globals.get(gname) if m is not None else None
+    if e is None:
+        return False
+    if isinstance(e, (ast.Dict, ast.List, ast.Set, ast.DictComp, ast.ListComp, ast.SetComp)):
+        return True
+    if isinstance(e, ast.Call):
+        t = project.resolve(m, e.func, ())
+        return t in ("builtins.dict", "builtins.list", "builtins.set", "collections.OrderedDict", "collections.defaultdict",
+                     "numpy.array", "numpy.zeros", "numpy.ones", "numpy.empty", "numpy.full", "builtins.bytearray")
+    return False
+
+
+def check_pu_share(project: Project, oa, rep, eps, rule="PU-SHARE"):
+    """no public function hands out a reference to a module-level mutable object — as an attribute of the object it builds
+    (`self.params = _DEFAULT_PARAMS`) or as its return value: whoever edits what they were given (an imager's parameter
+    dictionary is documented as adjustable) edits the module's one object, and with it every other holder and every later
+    default"""
+    n_flag = n = 0
+    for fi in eps:
+        s = oa.summary(fi.qualname)
+        if fi.cls is not None and fi.params:
+            me = fi.params[0]
+            for (o, attr), av in sorted(s.captures.items(), key=lambda kv: kv[0][1]):
+                if not (o.is_arg and o.param == me and not o.path):
+                    continue
+                for g in sorted(av.is_, key=str):
+                    if g.root.startswith("global:") and not g.path and _mutable_global(project, g.root[7:]):
+                        node = next((x for x in ast.walk(fi.node) if isinstance(x, ast.Assign) and any(
+                            isinstance(t, ast.Attribute) and t.attr == attr for t in x.targets)), fi.node)
+                        rep.refuted(rule, fi, node,
+                                    f"{fi.qualname} stores the module-level object `{g.root[7:]}` itself in `{me}.{attr}`: every object "
+                                    f"built this way shares that one mutable container, so an in-place edit through one of them changes "
+                                    f"the others and the default of every later construction",
+                                    construct=f"{fi.qualname}: {me}.{attr} aliases {g.root[7:]}")
+                        n_flag += 1
+        if s.ret is not None and fi.cls is None:
+            for g in sorted(s.ret.is_, key=str):
+                if g.root.startswith("global:") and not g.path and _mutable_global(project, g.root[7:]):
+                    rep.refuted(rule, fi, fi.node, f"{fi.qualname} returns the module-level object `{g.root[7:]}` itself: the caller "
+                                                   f"can edit the package's own state through it",
+                                construct=f"{fi.qualname}: returns {g.root[7:]}")
+                    n_flag += 1
+        n += 1
+    if not n_flag:
+        rep.discharged(rule, None, None, f"{n} public entry points: none stores or returns a module-level mutable object as it is")
+    return n_flag, n
+
+
 def _positive_examples(rep):
     """Zero-expected rules must flag their tiny positive example on every run."""
     from ..core.report import Report
@@ -567,8 +619,14 @@ def _positive_examples(rep):
         "PU-PLT": check_pu_plt(pp, oa, scratch, allowed_modules=set())[0],
         "PU-DTYPE": check_pu_dtype(pp, scratch)[0],
         "PU-INTARITH": check_pu_intarith(pp, scratch)[0],
+        "PU-SHARE": check_pu_share(pp, oa, scratch, eps)[0],
     }
-    want = {"PU-ARGS": 5, "PU-CAPT": 2, "PU-STATE": 5, "PU-RNG": 1, "PU-PLT": 1, "PU-DTYPE": 2, "PU-INTARITH": 5}
+    sh = [x for x in scratch.refutations if x["rule"] == "PU-SHARE"]
+    if not any("SharesDefaults" in x["function"] for x in sh):
+        raise AnalysisError("positive example: PU-SHARE did not flag SharesDefaults.__init__")
+    if any("CopiesDefaults" in x["function"] for x in sh):
+        raise AnalysisError("positive example: PU-SHARE flagged the clean twin CopiesDefaults")
+    want = {"PU-ARGS": 5, "PU-CAPT": 2, "PU-STATE": 5, "PU-RNG": 1, "PU-PLT": 1, "PU-DTYPE": 2, "PU-INTARITH": 5, "PU-SHARE": 1}
     ia = [x for x in scratch.refutations if x["rule"] == "PU-INTARITH"]
     for must in ("cross_difference", "squared_norms", "midpoints", "_pairwise"):
         if not any(must in x["function"] for x in ia):
@@ -633,6 +691,7 @@ def run(project: Project, rep, tier: str):
             rep.discharged("PU-CACHE", r_["fi"], r_["node"], r_["why"])
     _, rng_sites = check_pu_rng(project, oa, rep)
     rep.floor("PU-RNG", 1)
+    check_pu_share(project, oa, rep, eps)
     check_pu_plt(project, oa, rep)
     _, dsites = check_pu_dtype(project, rep)
     rep.floor("PU-DTYPE", 3)
